@@ -59,7 +59,7 @@ PLAN = {
              "P32 boundary words and a stride sweep of the 2^27 x 4 space) + StdRng streams over many seeds, through Distribution::sample "
              "and Rng::gen; every sample checked against the contract of the Sample action: real and 0 <= p < 1; "
              "distinct = distinct sample values per type, non-trivial = non-zero"),
-    "C13": dict(suites=["C13"], mc=["MCRound", "MCLaws"],
+    "C13": dict(suites=["C13"], mc=["MCRound", "MCLaws", "MCAlgo"],
         rule="driver: PxE1<N> and PxE2<N> for every N in 2..=32: all operand pairs for N <= 6 (quick) / 8 (thorough) and all triples "
              "for N <= 4, lattice pairs/triples with directed partners above; + - * / (operator and assign forms), mul_add, mul_sub, "
              "sub_product, sqrt (PxE2), round, neg; operands and results are the 32-bit left-aligned storage, the spec checks the low "
